@@ -22,7 +22,7 @@ func envaPart(r *ev.Report, dir string) {
 	const tmo = time.Second
 	full := "HTTP/1.1 200 OK\r\nContent-Type: application/activity+json\r\n\r\n" + `{"type":"Note","content":"a complete document"}`
 	stages := map[string]int{"before-status-line": 0, "in-status-line": 9, "in-headers": 30, "after-headers": strings.Index(full, "\r\n\r\n") + 4, "in-body": len(full) - 10}
-	var stallTLS bool
+	var stallTLS, stallRead bool
 	var mu sync.Mutex
 	env, err := enva.Start(dir, []string{"f.example"}, func(c *enva.Conn, req []byte, w io.Writer, done <-chan struct{}) {
 		target := ""
@@ -56,6 +56,7 @@ func envaPart(r *ev.Report, dir string) {
 		return
 	}
 	env.StallHandshake = func() bool { mu.Lock(); defer mu.Unlock(); return stallTLS }
+	env.StallAfterHandshake = func() bool { mu.Lock(); defer mu.Unlock(); return stallRead }
 	defer func() { env.Close(); verifrt.SetWorld(nil) }()
 	jtp.VerifSetTimeout(tmo)
 	jtp.VerifPurgeCache()
@@ -126,6 +127,33 @@ func envaPart(r *ev.Report, dir string) {
 	case <-time.After(bound + 5*time.Second):
 		r.Violation("enva:hang:handshake", map[string]any{"msg": "a peer that never starts the TLS handshake blocked the fetch"})
 	}
-	r.Extra["enva_cases"] = len(names) + 2
+	// a peer that completes the handshake and then never reads: an ordinary request, and one
+	// too long for the socket buffers, so that the fetch is still sending when the peer has
+	// stopped cooperating
+	mu.Lock()
+	stallTLS, stallRead = false, true
+	mu.Unlock()
+	for _, q := range []struct {
+		name string
+		size int
+	}{{"never-reads:short-request", 0}, {"never-reads:long-request", 24 << 20}} {
+		path := "/q"
+		if q.size > 0 {
+			path += "?" + strings.Repeat("a", q.size)
+		}
+		go func() { done <- fetch(q.name, path) }()
+		// crypto/tls may spend five seconds of its own on the closing alert
+		select {
+		case s := <-done:
+			r.Eval(1)
+			r.Distinct("enva" + q.name)
+			if s.err == nil || s.dur > bound+5*time.Second {
+				r.Violation("enva:"+q.name, map[string]any{"case": q.name, "msg": fmt.Sprintf("err=%v after %s with a timeout of %s", s.err, s.dur, tmo)})
+			}
+		case <-time.After(bound + 10*time.Second):
+			r.Violation("enva:hang:"+q.name, map[string]any{"case": q.name, "msg": "a peer that never reads blocked the fetch"})
+		}
+	}
+	r.Extra["enva_cases"] = len(names) + 4
 	r.Extra["enva_bound_s"] = bound.Seconds()
 }
